@@ -284,7 +284,7 @@ def _dict(I, args, kw):
 def _set(I, args, kw):
     U = I.ctx.universe
     if not args:
-        return I.ctx.alloc(NSet([False] * U))
+        return I.ctx.alloc(GSet([]))
     (v,) = args
     if isinstance(v, Ref) and isinstance(I.ctx.cell(v), NSet):
         return I.ctx.alloc(NSet(I.ctx.cell(v).bits))
